@@ -21,6 +21,21 @@ mod prefix_string;
 #[cfg(test)]
 mod tests;
 
+/// Re-exports for an external verification harness. Compiled only with the `verif-hooks` feature.
+#[cfg(feature = "verif-hooks")]
+pub mod verif {
+    pub use super::decoder::{ack_header, stream_canceled, Decoder};
+    pub use super::dynamic::{DynamicTable, Error as DynamicTableError};
+    pub use super::encoder::{set_dynamic_table_size, Encoder};
+    pub use super::prefix_int::{
+        decode as prefix_int_decode, encode as prefix_int_encode, Error as PrefixIntError,
+    };
+    pub use super::prefix_string::{
+        decode as prefix_string_decode, encode as prefix_string_encode,
+        Error as PrefixStringError, HpackStringDecode, HpackStringEncode,
+    };
+}
+
 #[derive(Debug)]
 pub enum Error {
     Encoder(EncoderError),
